@@ -102,11 +102,12 @@ def gen_case(rng, thorough):
         return gen_case_equal(rng, thorough)
     nxt = itertools.count(1)
     factor = rng.choice(["6/5", "5/4", "2", "5/4"])
-    draw = rng.choice(["1/2", "3/4", "7/8", "15/16", "1/4"])
+    draw = rng.choice(["1/2", "3/4", "7/8", "15/16", "1/4", "7/8", "15/16"])
     n_hist = rng.choice([0, 0, 20, 200, 1500] + ([5000] if thorough else []))
     drains = rng.choice([0, 1, 1, 3])
     qlen = rng.choice([1, 2, 3, 5, 9, 10, 11, 17, 40] + ([100, 200] if thorough else []))
-    positional = rng.random() < 0.3
+    positional = rng.random() < 0.5
+    pos_every = rng.choice([1, 2, 3])
     lines = [f"pos 0 new {factor}", f"pos 0 draw {draw}"]
     for d in range(max(1, drains)):
         lines += gen_history(rng, n_hist // max(1, drains), nxt)
@@ -129,13 +130,14 @@ def gen_case(rng, thorough):
     load = []
     for i in range(rounds):
         load.append("pos 0 popleft")
-        if positional and i % 3 == 1:
-            # two positional entries sit at the head while the append (and possibly maintenance) runs
-            load.append(f"pos 0 insert 0 {next(nxt)}")
-            load.append(f"pos 0 insert 0 {next(nxt)}")
+        if positional and i % pos_every == 1 % pos_every:
+            # positional entries (call_pos / task_switch style, positions 0..2) sit at the head while
+            # the append (and possibly maintenance) runs; position >= 1 promotes the current head
+            k = rng.choice([1, 2, 2, 3])
+            for _ in range(k):
+                load.append(f"pos 0 insert {rng.choice([0, 0, 1, 2])} {next(nxt)}")
             load.append(f"pos 0 appendpri {next(nxt)} 0")
-            load.append("pos 0 popleft")
-            load.append("pos 0 popleft")
+            load += ["pos 0 popleft"] * k
         else:
             load.append(f"pos 0 appendpri {next(nxt)} 0")
         load.append("pos 0 counters")
@@ -192,11 +194,25 @@ def oracle(lines, outs, meta, tags):
     popped_at = None
     prev = None
     last_ctr = None
+    prev_ctr = None
+    ins_count = 0                 # insertions (append/append_pri/insert calls) seen so far
+    born = {}                     # object -> ins_count just before it was inserted
+    for idx in range(0, start):
+        t = lines[idx].split()
+        if t[2] in ("appendpri", "append", "insert"):
+            born[int(t[3] if t[2] != "insert" else t[4])] = ins_count
+            ins_count += 1
+        elif t[2] == "popleft" and outs[idx] == "err IndexError":
+            pass
     for idx in range(start, len(lines)):
         ln, out = lines[idx], outs[idx]
         if out.startswith("exc "):
             return idx, "no exception", out, "unexpected exception", "exception"
         op = ln.split()[2]
+        if op in ("appendpri", "insert"):
+            t = ln.split()
+            born[int(t[3] if op == "appendpri" else t[4])] = ins_count
+            ins_count += 1
         if op == "popleft":
             if out == f"obj {strag}" and popped_at is None:
                 popped_at = rounds
@@ -214,6 +230,28 @@ def oracle(lines, outs, meta, tags):
                     return idx, "no boost on positional entries", out, f"positional entry {o} carries a boost", "boost-positional"
                 if bo > 0:
                     return idx, "boost <= 0", out, f"entry {o} was made less urgent by a boost", "boost-positive"
+            if prev is not None and prev_ctr is not None and last_ctr is not None \
+                    and prev_ctr.split()[3] != last_ctr.split()[3] and draw > 0 and not meta.get("equal"):
+                # a maintenance round ran during this load round: every regular entry that has been
+                # waiting for clearly more than a queue length of insertions and whose base priority is
+                # above a regular entry present all along must have been considered, i.e. carry a boost
+                # at least as strong as the one computed from that entry's priority
+                before = {p[0]: p for p in prev}
+                stable = [p for p in cur if p[1] != 0 and p[0] in before and before[p[0]][1] != 0]
+                n_now = len(cur)
+                for o, c, b, bo in stable:
+                    age = ins_count - born.get(o, ins_count)
+                    if age <= n_now + 8:
+                        continue
+                    others = [before[q[0]][2] + before[q[0]][3] for q in stable if q[0] != o]
+                    if not others:
+                        continue
+                    mn_st = min(others)
+                    if b > mn_st + Fraction(1, 1000):
+                        need = draw * (mn_st - b) * factor
+                        if bo > need + Fraction(1, 10**6) * max(1, abs(need)):
+                            return idx, f"entry {o} (base {b}, waiting {age} insertions, queue length {n_now}) considered: boost <= {need}", \
+                                out, f"a long-waiting, less urgent regular entry was not considered in a maintenance round", "straggler-not-considered"
             if prev is not None:
                 before = {p[0]: p for p in prev}
                 changed = [p for p in cur if p[0] in before and before[p[0]][3] != p[3]]
@@ -238,6 +276,7 @@ def oracle(lines, outs, meta, tags):
                     if meta["positional"]:
                         tags.add("maintenance-with-positional-head")
             prev = cur
+            prev_ctr = last_ctr
     # promptness: with draw*factor > 1 the straggler overtakes as soon as it is boosted as a candidate
     if draw * factor > 1 and n_rounds < bound + 2:
         tags.add("too-few-rounds-for-this-length")
@@ -330,7 +369,7 @@ def corpus_cases():
 def run(ctx):
     rng = ctx.rng
     explore(ctx, corpus_cases(), label="corpus: ")
-    n = 150 if ctx.thorough() else 30
+    n = 400 if ctx.thorough() else 70
     cases = [gen_case(rng, ctx.thorough()) for _ in range(n)]
     explore(ctx, cases)
     for lines, meta in cases[:2]:
